@@ -311,6 +311,37 @@ def run(chk):
         r8.ob(ident, ok, e["where"], e["fn"], "a non-const Boxed_Value is stored in a Constant node: `var r := <this constant>; r = other` rewrites the syntax tree")
     r8.require(12, "Constant node constructions")
 
+    # supporting obligation: the arithmetic kernel, which R7.8 accepts as an origin (the optimizer stores its results in Constant nodes),
+    # hands out a fresh result only as const_var(..) - never mutable, never marked as a temporary that a declaration may adopt
+    kern = [f for f in prog.fns if f["tk"] != "pattern" and f["file"].endswith("dispatchkit/boxed_number.hpp") and
+            (((f.get("cls") or "") == "chaiscript::Boxed_Number" and f["name"] in ("go", "oper")) or strip_targs(f["q"]).startswith("chaiscript::Boxed_Number::oper::<lambda"))]
+    r8.anchor(len(kern) >= 20, "instantiations of the arithmetic kernel Boxed_Number::go / oper (found %d)" % len(kern))
+    chk.touched(kern)
+    kbad = {}
+    nret = 0
+    for f in kern:
+        locs = ref_inits(f)
+        for n in walk(f["body"]):
+            if n.get("k") != "return" or n.get("e") is None:
+                continue
+            e = strip_casts(n["e"])
+            while e.get("k") == "construct" and e.get("copy") and e.get("args"):
+                e = strip_casts(e["args"][0])
+            if "Boxed_Value" not in prog.T(f, e.get("t")) and not (e.get("k") == "call" and e.get("name") in ("const_var", "visit", "go")):
+                continue
+            nret += 1
+            if e.get("k") == "call" and e.get("name") in ("const_var", "const_var_impl"):
+                continue        # fresh result, const
+            if e.get("k") == "ref" and e.get("rk") in ("param", "capture") and e.get("name") in ("t_bv", "t_lhs"):
+                continue        # the left operand itself, after an in-place operation
+            if e.get("k") == "call" and (e.get("name") in ("visit", "go") or (e.get("name") == "operator()" or e.get("op") == "()")):
+                continue        # forwards the result of the kernel's own visitor
+            kbad.setdefault(expr_str(prog, f, n["e"])[:50], (f, n))
+    r8.ob("Boxed_Number::go/oper: a fresh arithmetic result is handed out only as const_var(..) (%d returns in %d instantiations)" % (nret, len(kern)), not kbad,
+          "%s:%d" % (kbad[sorted(kbad)[0]][0]["file"], kbad[sorted(kbad)[0]][1]["l"]) if kbad else kern[0].where, kern[0]["q"],
+          "the kernel returns %s: the optimizer folds literals through this kernel and stores the result in a Constant node, so a mutable or temporary-marked result "
+          "is adopted by the first `var x = <literal expression>` and every later in-place operation on x rewrites the constant in the syntax tree" % sorted(kbad))
+
     # ------------------------------------------------------------------ R7.9 const returns / const_var / add_global_const
     r9 = chk.rule("R7.9", "const return forms are boxed const; const_var adds const; add_global_const refuses non-const values",
                   "a C++ object shared by const reference / const pointer / shared_ptr<const T> cannot be modified from script")
